@@ -190,10 +190,12 @@ def thread_work(ctx, task):
         return {'harness_error': 'scenario %s: default schedule not reproducible' % task['scenario'], 'task': task}
     completed = None
     capped = False
-    for bound in range(0, b + 1):
-        ex = sched.Explorer(lambda p: R.run_concurrent(sc, p), bound, deadline=ctx.deadline)
+    line_execs = 0
+    for bound, line in [(x, False) for x in range(0, b + 1)] + [(1, True)]:     # last: line-granularity audit
+        ex = sched.Explorer(lambda p: R.run_concurrent(sc, p, line=line), bound, deadline=ctx.deadline)
         for s, o in ex:
             counters['executions'] += 1
+            line_execs += 1 if line else 0
             js = json.dumps(o, sort_keys=True)
             outcomes.add(js)
             if js not in seqs and not acceptable(o, seqs):
@@ -207,12 +209,15 @@ def thread_work(ctx, task):
                                        'facts': {'scenario': task['scenario'], 'results': oks, 'invocations': ninv},
                                        'detail': {'preemptions': s.preemptions(), 'first': o['first'], 'tree': o.get('tree'),
                                                   'sequential_outcomes': [json.loads(k)['first'] for k in seqs]},
-                                       'history': {'scenario': sc, 'choices': list(s.choices), 'name': task['scenario']}})
+                                       'history': {'scenario': sc, 'choices': list(s.choices), 'name': task['scenario'],
+                                                   'line': line}})
         if not ex.complete:
             capped = True
             break
-        completed = bound
-    return {'counters': {'executions': counters['executions'], 'thread_scenarios': 1, 'b%s' % completed: 1},
+        if not line:
+            completed = bound
+    return {'counters': {'executions': counters['executions'], 'thread_scenarios': 1, 'b%s' % completed: 1,
+                         'line_audit_executions': line_execs},
             'violations': violations, 'outcomes': {task['scenario'] + x for x in outcomes},
             'samples': [{'scenario': task['scenario'], 'spec': sc, 'sequential_outcomes': len(seqs),
                          'bound_completed': completed, 'executions': counters['executions']}],
@@ -239,6 +244,7 @@ def coverage(res, tier):
         'sequential_histories': c.get('histories', 0),
         'thread_scenarios': c.get('thread_scenarios', 0),
         'schedules_executed': c.get('executions', 0),
+        'line_granularity_audit_executions': c.get('line_audit_executions', 0),
         'scenarios_completed_at_bound': {k: v for k, v in c.items() if k.startswith('b') and k[1:].lstrip('-').isdigit()},
         'distinct_outcomes': len(res.outcomes),
         'exhaustive': not res.capped,
@@ -247,7 +253,8 @@ def coverage(res, tier):
                 'bf/sb ok/failing) x {unchanged, each output deleted, unrelated input written} x three builds, compared '
                 'with the reference model and the effectiveness oracle. threads: every schedule with <= bound '
                 'preemptions of two threads issuing the same key (fresh, one failing, over an old output, inside a '
-                'reused subtree, nested, cached): the outcome (who got the value, who got RuntimeError, invocation '
+                'reused subtree, nested, cached), plus the same scenarios with every source line of the library as a '
+                'scheduling point at bound 1: the outcome (who got the value, who got RuntimeError, invocation '
                 'count, tree, next rebuild, clean) must equal the outcome of some sequential order.',
     }
 
